@@ -104,3 +104,19 @@ def subclasses(cls):
 def defining_classes(base, meth):
     """all classes in the hierarchy of base (inclusive) that define meth themselves"""
     return [c for c in [base] + subclasses(base) if meth in c.__dict__]
+
+
+# ----------------------------------------------------------------------------- event sampling (repository-traffic runs)
+# In generated workloads every event is judged (rate 1).  When the repository's own test-suite is used as traffic the
+# expensive monitors judge one event in `rate` (deterministic counter, never random), and count what they skipped.
+rates = {}
+_taken = {}
+
+
+def take(key):
+    k = rates.get(key, 1)
+    if k <= 1:
+        return True
+    n = _taken.get(key, 0)
+    _taken[key] = n + 1
+    return n % k == 0
